@@ -178,6 +178,27 @@ def run(ctx):
     ctx.instance(R3, "fix_exec_report_msg[OrderID(37): own id, else remembered, else new and remembered]", bool(oid) and own and fresh and remembered and recorded,
                  "OrderID is not stable per order: a new id is drawn while the order has not yet processed an earlier report and nothing remembers the first one "
                  f"(own={own}, new={fresh}, looked up={remembered}, recorded={recorded})", loc(er))
+    # the memo key is invariant over the order's life (the current ClOrdID changes with every request, its root does not)
+    keys = set()
+    for x in walk_no_nested(er):
+        if isinstance(x, ast.Subscript) and unparse(x.value) == "self._order_ids":
+            keys.add(unparse(x.slice))
+        if isinstance(x, ast.Compare) and len(x.ops) == 1 and isinstance(x.ops[0], (ast.In, ast.NotIn)) and unparse(x.comparators[0]) == "self._order_ids":
+            keys.add(unparse(x.left))
+    for k in sorted(keys):
+        m = re.fullmatch(r"order\.(\w+)", k)
+        stable = False
+        if m:
+            attr = m.group(1)
+            writers = [q for q in res.writers_of(attr) if q.startswith("FIXNewOrderSingle.") and not q.endswith(".__init__")]
+            prop = repo.functions.get(f"FIXNewOrderSingle.{attr}")
+            if prop is not None:
+                stable = "self.clord_root(" in unparse(prop)  # derived through the root extraction: C17.fresh-ids keeps every id of an order on one root
+            else:
+                stable = not writers
+        ctx.instance(R3, f"fix_exec_report_msg[OrderID memo key {k}]", stable and len(keys) == 1,
+                     f"the OrderID remembered for an order is keyed by `{k}`, which changes during the order's life (every request draws a new ClOrdID): the same order gets a "
+                     "second OrderID after its ClOrdID moved on", loc(er))
     no = repo.func(f"{T}._next_order_id")
     ctx.instance(R3, "_next_order_id[+1 then return]", [unparse(s) for s in no.body] == ["self._order_id += 1", "return self._order_id"], "the OrderID counter is not a plain +1", loc(no))
 
